@@ -824,3 +824,37 @@ mod test {
 
     test_buf_bit_reader!(test_u16, u16);
 }
+
+/// Verification hooks (compiled only under `cfg(kani)` or
+/// `--cfg dsi_bitstream_verif`): build a reader from an arbitrary internal
+/// state and read the internal state back.
+#[cfg(any(kani, dsi_bitstream_verif))]
+impl<E: Endianness, WR: WordRead, RP: ReadParams> BufBitReader<E, WR, RP>
+where
+    WR::Word: DoubleType,
+{
+    #[doc(hidden)]
+    pub fn verif_from_parts(backend: WR, buffer: BB<WR>, bits_in_buffer: usize) -> Self {
+        Self {
+            backend,
+            buffer,
+            bits_in_buffer,
+            _marker: core::marker::PhantomData,
+        }
+    }
+
+    #[doc(hidden)]
+    pub fn verif_parts(&self) -> (BB<WR>, usize) {
+        (self.buffer, self.bits_in_buffer)
+    }
+
+    #[doc(hidden)]
+    pub fn verif_backend(&self) -> &WR {
+        &self.backend
+    }
+
+    #[doc(hidden)]
+    pub fn verif_backend_mut(&mut self) -> &mut WR {
+        &mut self.backend
+    }
+}
